@@ -17,6 +17,12 @@ CHECKS={
  'C05':dict(technique='property-based testing of the subtyping engine through its public API: generated type pairs (B = one structural edit of A) decided by beff, judged by a set-theoretic reference that enumerates exact values of A over the pair\'s vocabulary closure and tests open membership in B (witness search in both directions)',
    text='Exploration: 30k pairs per quick run; a "yes" is refuted by any enumerated exact value of A outside B (sound regardless of completeness), a "no" is refuted only when the enumeration was complete and every value lies in B; plus is_same_type consistency, independence from memo state (fresh context) and termination (subprocess watchdog).',
    note='Trusted: reference membership with TypeScript null/undefined reading; the small-model bound used for the "no" direction (stated in the evidence assumptions).', ref='DESIGN.md section 2 C05'),
+ 'C06':dict(technique='property-based testing: (1) truth-table oracle for decision-diagram operations and DNF conversions over generated and exhaustively enumerated Boolean expressions, (2) homomorphism check of semantic-type set operations against an independent membership evaluator over the engine\'s atom tables',
+   text='Exploration: 20k diagram expressions (plus an exhaustive sub-run of every expression of depth<=2 over 3 atoms) checked on all assignments; 20k operand pairs x ~40 values x 7 operations x 2 readings checked value by value.',
+   note='Trusted: the independent evaluator sem_member (one fixed reading of record atoms per run; undecidable values skipped).', ref='DESIGN.md section 2 C06'),
+ 'C07':dict(technique='property-based testing: generated semantic computations (diff/intersect/union/keyof/indexed access) materialised through the frontend\'s own sequence and judged by round trip, an independent polarity-aware value-level evaluator pair, printability and reference-integrity checks; a third of the cases also compiled from TypeScript source and run in Node',
+   text='Exploration: 10k computations per quick run over the format-free fragment incl. recursive named types; every materialised type is re-interpreted (engine round trip and value by value) and checked for unprintable constructs and dangling/duplicate helper names.',
+   note='Trusted: the polarity-aware evaluators (exact positive / open negative reading, exactness judged on merged records); timeouts are inconclusive here.', ref='DESIGN.md section 2 C07'),
  'C11':dict(technique='property-based testing: strict-mode verdicts of generated validators vs reference strict membership, with undeclared keys injected at random object positions',
    text='Exploration weighted to intersections/unions/nesting/records; oracle = reference "no undeclared key at any object position" + strict implies default.',
    note='Trusted: reference declared-key computation (intersection = union of members\' keys, union = matching branch, index signature admits all keys).', ref='DESIGN.md section 2 C11'),
